@@ -564,6 +564,44 @@ def judge_objects(inp, obs, lr):
             "observed": obs, "tags": {"kind": obs["kind"], "problems": str(obs["problems"][0][1:3])}}
 
 
+# ------------------------------------------------------------------ edge enumerations: implementation vs model
+def gen_edges_corr(rng, n):
+    for _ in range(n):
+        yield U.rand_history(rng, maxlen=rng.choice([3, 6, 12, 40]), p_invalid=0.0,
+                             alphabets=("default", "default", "permuted", "multi", "case"))
+
+
+def run_edges(inp):
+    """the public edge enumerations after the history: edges(with_labels=True), every edges_out(v), every edges_in(v)"""
+    A, _ = U.build(inp["init"])
+    for op in inp["ops"]:
+        A = U.apply_op(A, op)
+    V = list(A.vertices())
+    return {"vertices": V, "g": [list(e) for e in A.edges(with_labels=True)],
+            "o": [list(e) for v in V for e in A.edges_out(v)],
+            "i": [list(e) for v in V for e in A.edges_in(v)]}
+
+
+def lean_edges(inp, obs):
+    return [{"op": "c09.edges", "init": inp["init"], "ops": inp["ops"]}]
+
+
+def judge_edges(inp, obs, lr):
+    if not lr:
+        return {"expected": "model answer", "observed": lr, "tags": {"driver_err": True}}
+    m = lr[0]
+    if "exc" in obs or "err" in m:
+        if "exc" in obs and "err" in m:
+            return None
+        return {"expected": m if "err" in m else "model: history succeeds", "observed": obs, "tags": {"what": "edges", "diff": "error"}}
+    m = m["ok"]
+    srt = lambda l: sorted((list(x) if isinstance(x, (list, tuple)) else x for x in l), key=repr)
+    for k, what in (("vertices", "vertices()"), ("g", "edges(with_labels=True)"), ("o", "edges_out"), ("i", "edges_in")):
+        if srt(m[k]) != srt(obs[k]):       # enumerations compared as multisets (an edge listed twice stays visible)
+            return {"expected": srt(m[k]), "observed": srt(obs[k]), "tags": {"what": what}}
+    return None
+
+
 def nontrivial_hist(inp):
     return len(inp.get("ops", [])) >= 2
 
@@ -580,6 +618,11 @@ CLAUSES = [
     Clause("builtin_corr", "corr", gen_builtin, U.bounded(run_builtin), judge_builtin, lean=lean_builtin,
            site="fsa.load_builtin / kbmag_utils.build_dict", budget={"quick": 18, "thorough": 18},
            what="all built-in .wa/.geowa files: parsed table -> model fromKbmag vs load_builtin"),
+    Clause("edges_corr", "corr", gen_edges_corr, U.bounded(run_edges), judge_edges, lean=lean_edges, nontrivial=nontrivial_hist,
+           site="fsa.FSA.edges / edges_out / edges_in / vertices", budget={"quick": 400, "thorough": 4000},
+           what="valid random histories on the real FSA and on the Lean model; the public edge enumerations (label view: edges(with_labels=True); "
+                "outgoing view: every edges_out(v); incoming view: every edges_in(v) — the model's edgesG / edgesO / edgesI) and vertices() "
+                "compared as multisets at the end"),
     Clause("hist_oracle", "oracle", gen_hist_oracle, U.bounded(run_history_oracle), judge_history_oracle, nontrivial=nontrivial_hist,
            site="fsa.FSA views", budget={"quick": 2000, "thorough": 30000},
            what="coherence predicate + set model on the real object after every step of a valid random history; read accessors at the end"),
